@@ -173,6 +173,32 @@ for _name in ("append", "appendleft", "pop", "popleft", "extend", "extendleft", 
     setattr(SchedDeque, _name, _before(deque, _name, _name.strip("_")))
 
 
+# reads of the shared queue by a receive thread are scheduling points too (the code as it is performs none): a
+# len()-dependent decision or an iteration over the deque can then be interleaved with the other threads' appends
+# (a deque that is appended to while being iterated raises RuntimeError in the iterating thread)
+for _name in ("__len__", "__getitem__", "__contains__", "count", "index", "copy", "__copy__", "__reversed__"):
+    setattr(SchedDeque, _name, _before(deque, _name, "read"))
+
+
+class _PointIter:
+    def __init__(self, it):
+        self.it = it
+
+    def __iter__(self):
+        return self
+
+    def __next__(self):
+        _pt("iter")
+        return next(self.it)
+
+
+def _sched_iter(self):
+    return _PointIter(deque.__iter__(self))
+
+
+SchedDeque.__iter__ = _sched_iter
+
+
 class SchedList(list):
     """Node._registered_commands_to_handle with a scheduling point before the membership test"""
 
@@ -254,18 +280,20 @@ def _frame(c, p, magic):
 class _Run:
     """one Node with n scripted peers whose receive threads stand in front of their first scheduling point"""
 
-    def __init__(self, progs, recv_pt):
+    def __init__(self, progs, recv_pt, cfg=None, free=False):
         import bits.p2p as p2p
         self.n = n = len(progs)
         self.baton = b = _Baton(n)
+        b.free = free
         _BATON[0] = b
         self.errors = [None] * n
-        node = self.node = p2p.Node()                       # __init__ opens no socket
+        # __init__ opens no socket; cfg = the node's own constructor parameters (protocol_version, services, relay, ...)
+        node = self.node = p2p.Node(**{str(k): v for (k, v) in (cfg or [])})
         # same content and same configuration (maxlen!) as the containers Node.__init__ made; a container of
         # another type is left in place (then its operations are simply not scheduling points)
-        if type(node._msg_queue) is deque:
+        if type(node._msg_queue) is deque and not free:
             node._msg_queue = SchedDeque(node._msg_queue, node._msg_queue.maxlen)
-        if type(node._registered_commands_to_handle) is list:
+        if type(node._registered_commands_to_handle) is list and not free:
             node._registered_commands_to_handle = SchedList(node._registered_commands_to_handle)
         self.socks = []
         self.workers = []
@@ -284,8 +312,9 @@ class _Run:
                 wk.idle = False
                 wk.job = (lambda t=t, wk=wk: self._body(t, wk))
                 wk.job_sem.release()
-            for t in range(n):                                # thread start: up to the first scheduling point
-                b.grant(t)
+            if not free:
+                for t in range(n):                            # thread start: up to the first scheduling point
+                    b.grant(t)
         except BaseException:
             self.cleanup()
             raise
@@ -319,6 +348,23 @@ class _Run:
         finally:
             self.cleanup()
         return extra
+
+    def run_free(self, switch_interval, timeout=120.0):
+        """no baton: the receive threads run as real concurrent threads (the containers are the node's own)"""
+        import sys
+        import time
+        b = self.baton
+        old = sys.getswitchinterval()
+        try:
+            sys.setswitchinterval(switch_interval)
+            for t in range(self.n):
+                b.go[t].release()
+            deadline = time.time() + timeout
+            for t in range(self.n):
+                b.back[t].acquire(timeout=max(0.01, deadline - time.time()))
+        finally:
+            sys.setswitchinterval(old)
+            self.cleanup()
 
     def cleanup(self):
         b = self.baton
@@ -365,9 +411,9 @@ def _as_progs(progs):
     return [[(bytes(c), bytes(p)) for (c, p) in prog] for prog in progs]
 
 
-def _impl_run(progs, sched, recv_pt):
+def _impl_run(progs, sched, recv_pt, cfg=None):
     progs = _as_progs(progs)
-    r = _Run(progs, recv_pt)
+    r = _Run(progs, recv_pt, cfg)
     extra = r.execute(list(sched), _rounds(progs))
     q, sent, stored, errors = r.observe()
     return ("impl", q, sent, stored, errors, extra)
@@ -401,11 +447,11 @@ def _n_interleavings(counts):
     return r
 
 
-def _sweep_schedules(progs, limit, seed, recv_pt):
+def _sweep_schedules(progs, limit, seed, recv_pt, cfg=None):
     """(exhaustive?, number, points per thread, iterator of schedules): all interleavings of the threads'
     scheduling points as measured on a sequential run of the code as it is now, or `limit` random ones when there
     are more than that"""
-    r = _Run(progs, recv_pt)
+    r = _Run(progs, recv_pt, cfg)
     seq = [t for t in range(len(progs)) for _ in range(10 * len(progs[t]) + 2)]
     r.execute(seq, 0)
     counts = [0] * len(progs)
@@ -432,10 +478,10 @@ def _outcome_key(q, sent, stored, errors, n):
     return (proj, rest, sent, stored, errors)
 
 
-def _impl_sweep(progs, limit, seed, recv_pt):
+def _impl_sweep(progs, limit, seed, recv_pt, cfg=None):
     progs = _as_progs(progs)
     n = len(progs)
-    exhaustive, total, counts, scheds = _sweep_schedules(progs, limit, seed, recv_pt)
+    exhaustive, total, counts, scheds = _sweep_schedules(progs, limit, seed, recv_pt, cfg)
     rounds = _rounds(progs)
     seen = {}
     nrun = 0
@@ -443,7 +489,7 @@ def _impl_sweep(progs, limit, seed, recv_pt):
         if _TMO["cur"] != GRANT_TIMEOUT and nrun >= BLOCKING_SWEEP_LIMIT:
             exhaustive = False          # a variant that blocks costs a timeout per episode: settle for a prefix
             break
-        r = _Run(progs, recv_pt)
+        r = _Run(progs, recv_pt, cfg)
         r.execute(s, rounds)
         raw = r.observe_raw()
         q0 = raw[0]
@@ -469,7 +515,26 @@ def _impl_sweep(progs, limit, seed, recv_pt):
     return ("sweep", nrun, exhaustive, counts, list(merged.values()))
 
 
-IMPL = {"run": _impl_run, "sweep": _impl_sweep}
+def _impl_stress(progs, switch_us, repeats, cfg=None):
+    """real concurrency (supporting search, not proof): the receive threads run freely with a tiny GIL switch
+    interval, up to `repeats` times; reports the first repetition whose final state violates the property (judged by
+    the independent oracle), otherwise the last one.  Same shape as a sweep result."""
+    progs = _as_progs(progs)
+    n = len(progs)
+    out = None
+    nrun = 0
+    for _ in range(max(1, repeats)):
+        r = _Run(progs, False, cfg, free=True)
+        r.run_free(switch_us * 1e-6)
+        q, sent, stored, errors = r.observe()
+        nrun += 1
+        out = [list(_outcome_key(q, sent, stored, errors, n)), [], 1]
+        if _judge(progs, q, sent, stored, errors, []) is not None:
+            break
+    return ("sweep", nrun, False, [len(p) for p in progs], [out])
+
+
+IMPL = {"run": _impl_run, "sweep": _impl_sweep, "stress": _impl_stress}
 
 
 # --------------------------------------------------------------------------------------
@@ -576,7 +641,7 @@ def _abs_stored(d, progs, peer):
 
 
 _WITNESS = {}      # sweep case key -> witness schedules of its distinct outcomes (for shrink)
-_COUNTERS = {"schedules": 0, "exhaustive_sweeps": 0, "sampled_sweeps": 0, "runs": 0,
+_COUNTERS = {"schedules": 0, "exhaustive_sweeps": 0, "sampled_sweeps": 0, "runs": 0, "stress_runs": 0,
              "global_order_same": 0, "global_order_differs": 0}
 _LAST = {}
 
@@ -612,7 +677,7 @@ def canon(c, v):
     if v[0] == "sweep":
         _, nrun, exhaustive, counts, outcomes = v
         _COUNTERS["schedules"] += nrun
-        _COUNTERS["exhaustive_sweeps" if exhaustive else "sampled_sweeps"] += 1
+        _COUNTERS["stress_runs" if c["op"] == "stress" else ("exhaustive_sweeps" if exhaustive else "sampled_sweeps")] += 1
         _WITNESS[_key(c)] = [list(o[1]) for o in sorted(outcomes, key=lambda o: o[2])]
         res = []
         for (okey, wit, cnt) in outcomes:
@@ -628,42 +693,70 @@ def canon(c, v):
     return v
 
 
+def _cfg_of(c):
+    n = {"run": 3, "sweep": 4, "stress": 3}[c["op"]]
+    return c["args"][n] if len(c["args"]) > n else None
+
+
+def _blocks(progs):
+    """programs with a block of one thread's messages removed (halves ... sixteenths)"""
+    for t in range(len(progs)):
+        L = len(progs[t])
+        for parts in (2, 4, 16):
+            size = max(1, L // parts)
+            for start in range(0, L, size):
+                if size < L:
+                    p2 = [list(p) for p in progs]
+                    del p2[t][start:start + size]
+                    yield p2
+
+
 def shrink(c):
     progs, rest = c["args"][0], c["args"][1:]
+    cfg = _cfg_of(c)
+    tail = [cfg] if cfg is not None else []
     if c["op"] == "sweep":
         # a concrete schedule for every distinct outcome the sweep saw (rarest first)
         for sch in _WITNESS.get(_key(c), []):
-            yield case(c["cls"] + ">run", "run", progs, sch, rest[2])
+            yield case(c["cls"] + ">run", "run", progs, sch, rest[2], *tail)
+        return
+    if c["op"] == "stress":
+        # real concurrency is not replayable step by step: the replay is the programs (re-run up to `repeats` times).
+        # First see whether the serialised scheduler reproduces it (round robin, recv not a scheduling point).
+        yield case(c["cls"] + ">run", "run", progs, [], False, *tail, timeout=300.0)
+        if len(progs) > 1 and not progs[-1]:
+            yield case(c["cls"], "stress", progs[:-1], rest[0], rest[1], *tail, timeout=300.0)
+        for p2 in _blocks(progs):
+            yield case(c["cls"], "stress", p2, rest[0], rest[1], *tail, timeout=300.0)
         return
     sched, recv_pt = list(rest[0]), rest[1]
     n = len(progs)
+    big = sum(len(p) for p in progs) > 40
+    extra = {"timeout": 300.0} if big else {}
+
+    def mk(p2, s2, tl=tail):
+        return case(c["cls"], "run", p2, s2, recv_pt, *tl, **extra)
+    if cfg is not None:
+        yield mk(progs, sched, [])                                  # the node's default parameters
     # drop the last thread when it has nothing to do (ids stay), a message, then schedule entries
     if n > 1 and not progs[-1]:
-        yield case(c["cls"], "run", progs[:-1], [t for t in sched if t != n - 1], recv_pt)
-    total = sum(len(p) for p in progs)
-    if total > 40:
-        # large programs: remove blocks of messages (halves ... sixteenths), never one by one
+        yield mk(progs[:-1], [t for t in sched if t != n - 1])
+    if big:
+        # large programs: remove blocks of messages, never one by one
         if sched:
-            yield case(c["cls"], "run", progs, [], recv_pt, timeout=300.0)
-        for t in range(n):
-            L = len(progs[t])
-            for parts in (2, 4, 16):
-                size = max(1, L // parts)
-                for start in range(0, L, size):
-                    if size < L:
-                        p2 = [list(p) for p in progs]
-                        del p2[t][start:start + size]
-                        yield case(c["cls"], "run", p2, sched, recv_pt, timeout=300.0)
+            yield mk(progs, [])
+        for p2 in _blocks(progs):
+            yield mk(p2, sched)
         return
     for t in range(n):
         for i in range(len(progs[t])):
             p2 = [list(p) for p in progs]
             del p2[t][i]
-            yield case(c["cls"], "run", p2, sched, recv_pt)
+            yield mk(p2, sched)
     if sched:
-        yield case(c["cls"], "run", progs, sched[:len(sched) // 2], recv_pt)
+        yield mk(progs, sched[:len(sched) // 2])
         for i in range(len(sched) - 1, -1, -1):
-            yield case(c["cls"], "run", progs, sched[:i] + sched[i + 1:], recv_pt)
+            yield mk(progs, sched[:i] + sched[i + 1:])
 
 
 # --------------------------------------------------------------------------------------
@@ -689,7 +782,7 @@ def _expected(progs):
 def _judge(progs, q, sent, stored, errors, trace):
     n = len(progs)
     exp = _expected(progs)
-    where = " [trace: %s]" % " ".join("%d:%s" % e for e in trace[:60])
+    where = " [trace: %s%s]" % ("... " if len(trace) > 60 else "", " ".join("%d:%s" % e for e in trace[-60:]))
     for t in range(n):
         if errors[t] is not None:
             return "receive thread of peer %d ended with %s%s" % (t, errors[t], where)
@@ -725,18 +818,28 @@ def _judge(progs, q, sent, stored, errors, trace):
 
 def prop_oracle(c):
     progs = _as_progs(c["args"][0])
+    cfg = _cfg_of(c)
+    if c["op"] == "stress":
+        for i in range(max(1, c["args"][2])):
+            r = _Run(progs, False, cfg, free=True)
+            r.run_free(c["args"][1] * 1e-6)
+            q, sent, stored, errors = r.observe()
+            v = _judge(progs, q, sent, stored, errors, [])
+            if v is not None:
+                return "receive threads running freely (GIL switch interval %d us), repetition %d: %s" % (c["args"][1], i + 1, v)
+        return None
     if c["op"] == "run":
         scheds, recv_pt = [list(c["args"][1])], c["args"][2]
     else:
         recv_pt = c["args"][3]
-        _, _, _, scheds = _sweep_schedules(progs, c["args"][1], c["args"][2], recv_pt)
+        _, _, _, scheds = _sweep_schedules(progs, c["args"][1], c["args"][2], recv_pt, cfg)
     for s in scheds:
-        r = _Run(progs, recv_pt)
+        r = _Run(progs, recv_pt, cfg)
         r.execute(s, _rounds(progs))
         q, sent, stored, errors = r.observe()
         v = _judge(progs, q, sent, stored, errors, r.baton.trace)
         if v is not None:
-            return "schedule %r: %s" % (s, v)
+            return "schedule %r%s: %s" % (s, (", Node(%s)" % ", ".join("%s=%r" % tuple(kv) for kv in cfg)) if cfg else "", v)
     return None
 
 
@@ -758,6 +861,20 @@ def _msg(kind, k):
         return (b"version", w.version_payload(k, "empty"))
     if kind == "version-longua":        # ... with a 200-byte user agent
         return (b"version", w.version_payload(k, "long"))
+    if kind.startswith("version-pv"):   # a version announcing this protocol version (other fields depend on k)
+        return (b"version", w.version_payload(k, ("plain", "empty", "long")[k % 3], protocol_version=int(kind[10:])))
+    if kind == "version-rand":          # every integer / bool field varied
+        pv = w.PROTOCOL_VERSIONS[(k * 7 + 3) % len(w.PROTOCOL_VERSIONS)]
+        return (b"version", w.version_payload(k, ("plain", "long", "empty", "plain")[k % 4], protocol_version=pv,
+                                              services=(k * 0x0101010101) % 2 ** 64, start_height=(k * 99991) % 2 ** 32,
+                                              relay=bool((k // 2) % 2), timestamp=(k * 0x123456789) % 2 ** 64,
+                                              nonce=(k * 0xDEADBEEFCAFEF00D) % 2 ** 64, addr_recv_services=k % 2 ** 16))
+    if kind == "getheaders":
+        return (b"getheaders", w.getheaders_payload(k))
+    if kind == "feefilter":
+        return (b"feefilter", (1000 * k + 1).to_bytes(8, "little"))
+    if kind == "sendcmpct":
+        return (b"sendcmpct", bytes([k % 2]) + (1 + k % 2).to_bytes(8, "little"))
     if kind == "verack":
         return (b"verack", b"")
     if kind == "inv":
@@ -777,7 +894,7 @@ def _progs(kinds_per_thread):
 
 def _cls_of(kinds_per_thread):
     flat = [k for ks in kinds_per_thread for k in ks]
-    h = sum(1 for k in flat if k in ("ping", "ping-short", "version", "version-noua", "version-longua", "verack"))
+    h = sum(1 for k in flat if k in ("ping", "ping-short", "verack") or k.startswith("version"))
     return "all-handled" if h == len(flat) else ("none-handled" if h == 0 else "mixed")
 
 
@@ -819,7 +936,7 @@ def gen_cases(rng, tier):
         out.append(case("idle-steps", "run", progs, sched, i % 2 == 0))
     # --- exhaustive: 2 threads x 1 message, all 64 pairs (the six kinds + the version variants), all schedules,
     #     both granularities ---
-    AV = A + ("version-noua", "version-longua")
+    AV = A + ("version-noua", "version-longua", "version-pv209", "getheaders")
     for a in AV:
         for b in AV:
             for mode in (FINE, EAGER):
@@ -851,7 +968,8 @@ def gen_cases(rng, tier):
     for tr in fine_triples:
         out.append(case("sweep-3x1-fine-" + _cls_of([[x] for x in tr]), "sweep", _progs([[x] for x in tr]), 10 ** 6, 0, FINE))
     # --- sampled: 3 threads x 3 messages (and 2 x 3, 3 x 2) ---
-    A2 = A + ("ping-short", "version-noua", "version-longua")
+    A2 = A + ("ping-short", "version-noua", "version-longua", "version-rand", "version-pv60000", "version-pv0",
+              "getheaders", "feefilter", "sendcmpct")
     for i in range(240 if T else 12):
         shape = [(3, 3), (3, 3), (2, 3), (3, 2)][i % 4]
         ks = [[rng.choice(A2) for _ in range(shape[1])] for _ in range(shape[0])]
@@ -868,6 +986,34 @@ def gen_cases(rng, tier):
         if i % 3 == 0:
             base = base[:rng.randrange(0, len(base) + 1)]       # the tail is left to the round robin
         out.append(case("run-%d-threads-%s" % (nthreads, _cls_of(ks)), "run", progs, base, mode))
+    # --- history: what a handler does must not depend on what the SAME peer (or another peer) sent earlier, nor on the
+    #     node's own constructor parameters: every ping is answered by exactly one pong to its sender, every
+    #     unhandled message queued, whatever version messages (any protocol version / services / relay / user agent /
+    #     start height), veracks or pings came before - version after ping, two versions, no version at all ---
+    PV = ["version-pv%d" % v for v in w.PROTOCOL_VERSIONS]
+    hist = [[]] + [[v] for v in PV] + [["version-rand"], ["version-noua"], ["verack"], ["version", "verack"]]
+    hist += [[a, b] for (a, b) in (("version-pv209", "version-pv70015"), ("version-pv70015", "version-pv209"),
+                                   ("version-pv0", "version-pv60000"), ("version-rand", "version-rand"))]
+    hist += [["ping", v] for v in ("version-pv209", "version-pv60000", "version-pv70015")]
+    probes = [["ping"], ["ping", "inv", "ping"], ["getheaders", "ping"], ["addr", "ping", "ping-short"],
+              ["inv", "feefilter", "sendcmpct"], ["ping", "version-pv31402", "ping"]]
+    i = 0
+    for h in hist:
+        for pr in probes:
+            i += 1
+            out.append(case("history-1-peer", "run", _progs([h + pr]), [], i % 2 == 0))
+    for i in range(60 if T else 14):                                  # several peers with different histories, interleaved
+        ks = [rng.choice(hist) + rng.choice(probes) for _ in range(rng.choice([2, 3]))]
+        out.append(case("history-peers", "sweep", _progs(ks), 400 if T else 120, rng.randrange(2 ** 30), i % 4 == 0))
+    cfgs = [[["protocol_version", v]] for v in w.PROTOCOL_VERSIONS]
+    cfgs += [[["services", 0], ["relay", False]], [["protocol_version", 60000], ["services", 1033], ["relay", True]],
+             [["protocol_version", 209], ["relay", False], ["datadir", ".bits/other"]], [["serve_rpc", False], ["seeds", []]]]
+    for i, cfg in enumerate(cfgs):
+        for h in ([], ["version-pv70015"], ["version-pv209"], ["version-rand", "verack"]):
+            out.append(case("history-node-params", "run", _progs([h + ["ping", "inv", "ping"], ["ping", "addr"]]),
+                            [0, 1] * 4, (i + len(h)) % 2 == 0, cfg))
+        out.append(case("history-node-params", "sweep", _progs([["version-rand", "ping", "inv"], ["ping", "getheaders"]]),
+                        10 ** 6 if T else 40, i, False, cfg))
     # --- high volume: more than 1000 unhandled messages in total (1..3 peers, recv not a scheduling point, coarse
     #     schedules): every one of them must be in the final queue exactly once, in its peer's sending order ---
     def bulk(n, t):
@@ -885,6 +1031,15 @@ def gen_cases(rng, tier):
         vol.append(("volume-1-peer", [["inv"] * 2100], []))
     for (cls, ks, sched) in vol:
         out.append(case(cls, "run", _progs(ks), sched, EAGER, timeout=300.0))
+    # --- real concurrency (supporting search): the receive threads run freely on the node's own containers with a tiny
+    #     GIL switch interval; finds what happens INSIDE a step the model treats as atomic (e.g. iterating the shared
+    #     queue while another thread appends).  No message may be lost and no receive thread may die. ---
+    stress = [(3, 500, 10, 3), (4, 350, 5, 2)]
+    if T:
+        stress += [(3, 800, 1, 4), (3, 500, 50, 4), (5, 400, 10, 4), (2, 1500, 10, 4), (6, 300, 2, 4), (3, 1000, 5, 4)]
+    for (npeers, nmsg, us, reps) in stress:
+        out.append(case("stress-%d-peers" % npeers, "stress", _progs([bulk(nmsg, t) for t in range(npeers)]), us, reps,
+                        timeout=300.0))
     return out
 
 
